@@ -20,7 +20,8 @@ PARTIAL = ["adjustment over any set Z that contains the parents of X and no desc
            "engine validity tests <=> path criteria: decided exhaustively on all DAGs up to 4 nodes (5 in thorough) against the path-enumeration spec"]
 RULE = ("random BNs of 2-5 nodes with optional latents; do-sets single and multiple incl. parent-child pairs; query sets disjoint from the "
         "do-set and its parents; back-ends ve / bp (bp on connected networks); criteria: every DAG on <=4 nodes x every (X,Y) x every Z among "
-        "the non-descendants of X; non-trivial = X has a parent or the do-set has 2 nodes; distinct = case JSON")
+        "the non-descendants of X; non-trivial = X has a parent or the do-set has 2 nodes; distinct = case JSON"
+        " Also: declared latents in queries; do() arguments as tuple / set / generator / iterator.")
 ASSUMPTIONS = ["P(do-state, adjustment state) > 0 for every adjustment state (verified exactly by the model before a case counts)"]
 BUDGET_QUICK = 100
 LEVEL_TEXT = ("Kernel-checked: do() on the model removes exactly the incoming edges of the intervened nodes, keeps the node set and "
